@@ -309,6 +309,11 @@ def minimise(ctx, b, case, msg):
         text, r2 = real_one(ctx, b, lib, case.pop, l2)
         m2 = oracle(case.pop, r2)
         if m2:
+            if key == "layout:comment-semicolon@agg2":
+                # same root cause as comment-delims@agg2: the raw-text scanners of an aggregate of aggregates
+                # (SCLundefined::STEPread / PushPastImbedAggr) know no comments; since fixes/C05-16 and -17 a `;` ends the raw
+                # value like `,` and `)` do - also when it stands inside a comment
+                key = "layout:comment-delims@agg2"
             # smallest sub-population
             best_pop, best_msg, best_text = case.pop, m2, text
             for inst in case.pop:
